@@ -170,6 +170,7 @@ def one_mdp_run(case):
 
 
 def one_mdp_eval(case):
+    from msdm.core.mdp.policy import Policy     # TabularPolicy overrides evaluate_on with the exact evaluator
     mdp = build_mdp(case["mdp"])
     pol = mk_policy(case, mdp)
     guard = guard_absorbing(mdp, int(case.get("step_guard", 400)) * int(case["n_sims"]))
@@ -187,7 +188,7 @@ def one_mdp_eval(case):
         object.__setattr__(pol, "run_on", rec)
     try:
         with GlobalPatch(g):
-            ev = pol.evaluate_on(mdp, n_simulations=int(case["n_sims"]), max_steps=cap_of(case), rng=rng)
+            ev = Policy.evaluate_on(pol, mdp, n_simulations=int(case["n_sims"]), max_steps=cap_of(case), rng=rng)
     except StreamExhausted as e:
         return {"skipped": "stream exhausted (%s)" % e}
     except StepGuard:
